@@ -238,7 +238,11 @@ func (g *gen) cred(c string) M {
 }
 
 func (g *gen) scopes() []string {
-	switch g.rng.Intn(7) {
+	switch g.rng.Intn(9) {
+	case 7:
+		return []string{"email", "offline_access"} // a plain OAuth 2.0 request: no "openid"
+	case 8:
+		return []string{"profile"}
 	case 5:
 		// a repeated value: legal, stored verbatim by the storage; what is granted is the set of values
 		return []string{"openid", "openid", "offline_access"}
